@@ -277,13 +277,15 @@ def buffers(o, path="", seen=None, out=None, max_depth=10):
     return out
 
 
-def flip(arr, index=0):
+def flip(arr, index=0, through_readonly=False):
     """Write a different value into one element of `arr` in place; returns the old value (or None if
     the array is empty / read-only)."""
     if arr.size == 0:
         return None
+    if not arr.flags.writeable and not through_readonly:
+        return None
     if not arr.flags.writeable:
-        # a read-only array whose memory is owned by a writable array (a view handed out read-only, e.g. by
+        # (opt-in) a read-only array whose memory is owned by a writable array (a view handed out read-only, e.g. by
         # as_vector(), or built with copy=False from a protected view) can still be written by whoever holds the
         # owner: do the write through it.  Memory that is read-only at its owner is left alone.
         try:
@@ -291,7 +293,7 @@ def flip(arr, index=0):
         except ValueError:
             return None
         try:
-            tok = flip(arr, index)
+            tok = flip(arr, index, True)
         finally:
             arr.setflags(write=False)
         return ("ro", tok)
